@@ -344,6 +344,73 @@ let entry_op (m : imap ref) (q : pfx) (ops : string list) =
     end
     else (tok "?"; raise Stop)) ops
 
+
+(* ---------- C14: exclusivity of mutable access (mirrors harness alias / par) ---------- *)
+let rec nodup = function [] -> true | x :: r -> (not (Stdlib.List.mem x r)) && nodup r
+let same_set a b =
+  Stdlib.List.for_all (fun x -> Stdlib.List.mem x b) a && Stdlib.List.for_all (fun x -> Stdlib.List.mem x a) b
+
+(* slot of the view's own value (value_mut), if any *)
+let own_slot t (v : pfx Views.vmut) =
+  match v.Views.mvirt with
+  | Some _ -> None
+  | None -> (match Views.vm_tree t v with
+      | Trie.Node (i, _, Some _, _, _) -> Some i
+      | _ -> None)
+
+let rec split_slots t (v : pfx Views.vmut) (acc : coq_N list ref) =
+  (match own_slot t v with Some i -> acc := i :: !acc | None -> ());
+  let (l, r) = Inst.t_vm_split !w t v in
+  (match l with Some l -> split_slots t l acc | None -> ());
+  (match r with Some r -> split_slots t r acc | None -> ())
+
+let do_alias (m : imap ref) =
+  let t = root !m in
+  let slot ((i, _), _) = i in
+  let it = Stdlib.List.map slot (Inst.t_iter_mut_items t) in
+  let acc = ref [] in
+  split_slots t Views.vm_root acc;
+  let sp = Stdlib.List.rev !acc in
+  let sets =
+    (match Inst.t_vm_split !w t Views.vm_root with
+     | (Some vl, Some vr) ->
+       let a = Views.vm_tree t vl and b = Views.vm_tree t vr in
+       let inb = Stdlib.List.map slot (Inst.t_iter_mut_items b) in
+       let u = Stdlib.List.concat_map (fun ((_, l), r) ->
+           (match l with Some (i, _) -> [i] | None -> []) @ (match r with Some (i, _) -> [i] | None -> []))
+           (get_some (Inst.t_union_mut !w !fl a b)) in
+       let i2 = Stdlib.List.concat_map (fun ((_, (i, _)), (j, _)) -> [i; j]) (get_some (Inst.t_intersection_mut !w !fl a b)) in
+       let d = Stdlib.List.map (fun ((_, (i, _)), _) -> i) (get_some (Inst.t_difference_mut !w !fl a b)) in
+       let cd = Stdlib.List.map (fun (_, (i, _)) -> i) (get_some (Inst.t_covering_difference_mut !w !fl a b)) in
+       let sub l = Stdlib.List.for_all (fun x -> Stdlib.List.mem x it) l in
+       nodup u && sub u && nodup i2 && sub i2 && nodup d && sub d
+       && Stdlib.List.for_all (fun x -> not (Stdlib.List.mem x inb)) d && nodup cd && sub cd
+     | _ -> true) in
+  add ("n=" ^ string_of_int (Stdlib.List.length it) ^ " iter=" ^ pbool (nodup it) ^ " vals=1"
+       ^ " split=" ^ pbool (nodup sp) ^ " cover=" ^ pbool (same_set sp it) ^ " sets=" ^ pbool sets)
+
+(* the jobs of `par`: sub-views k levels below the root; nodes that are split get 3x+7 *)
+let do_par (m : imap ref) (k : int) =
+  let t0 = root !m in
+  let ws = ref [] and jobs = ref [] in
+  let rec go (v : pfx Views.vmut) depth =
+    if depth >= k then jobs := v :: !jobs
+    else begin
+      (match own_slot t0 v, Views.vm_value t0 v with
+       | Some i, Some x -> ws := (i, 3 * x + 7) :: !ws
+       | _ -> ());
+      let (l, r) = Inst.t_vm_split !w t0 v in
+      (match l with Some l -> go l (depth + 1) | None -> ());
+      (match r with Some r -> go r (depth + 1) | None -> ())
+    end in
+  go Views.vm_root 0;
+  let jobs = Stdlib.List.rev !jobs in
+  (* sequential execution of the workers: by C14_split_workers every interleaving gives this *)
+  Stdlib.List.iteri (fun i v ->
+      Stdlib.List.iter (fun ((id, _), x) -> ws := (id, 3 * x + i) :: !ws) (Views.vm_iter_mut t0 v)) jobs;
+  m := set_root !m (Trie.write_ids t0 !ws);
+  add ("jobs=" ^ string_of_int (Stdlib.List.length jobs))
+
 (* items of the mutable set operations *)
 let idv = function None -> "-" | Some (_, x) -> string_of_int x
 
@@ -369,6 +436,8 @@ let exec (toks : string list) =
     let k = if k = "-" then None else Some (int_of_string k) in
     do_retain m (parse_pred pred) k cmp_call ppair
   | ["clear"; x] -> let m = mapref x in m := Inst.t_clear !m; add "ok"
+  | ["alias"; x] -> if x = "A" then do_alias mA else add "?"
+  | ["par"; x; k] -> if x = "A" then do_par mA (min 6 (int_of_string k)) else add "?"
   | ["collect"; x; rs] ->
     let m = mapref x in
     let rs = if rs = "-" then [] else Stdlib.List.map int_of_string (String.split_on_char ',' rs) in
